@@ -73,7 +73,7 @@ def one_document(text):
 def _one(args):
     game, version, seed, ids, extra_args = args[:5]
     floats = args[5] if len(args) > 5 else None
-    out = {'version': '%s/%s' % (game, version), 'ids': ids, 'problems': [], 'corr': [], 'floats': floats}
+    out = {'version': '%s/%s' % (game, version), 'ids': ids, 'problems': [], 'corr': [], 'floats': floats, 'seed': seed, 'extra_args': list(extra_args)}
     from ..gen import battle as gbattle
     # non-finite floats are legal FLOAT32/FLOAT64/VECTOR values: fields the battle does not set itself carry them in some runs
     gbattle.FLOAT_BITS = {'inf': (0x7f800000, 0x7ff0000000000000), '-inf': (0xff800000, 0xfff0000000000000), 'nan': (0x7fc00000, 0x7ff8000000000000)}.get(floats)
@@ -202,7 +202,7 @@ def run(chk, drv):
                 chk.notes.append('%s: %s' % (r['version'], what))
             else:
                 chk.report('%s with entity ids %s%s: %s' % (r['version'], r['ids'], (' and %s in unused float fields' % r['floats']) if r.get('floats') else '', what),
-                           {'kind': 'cli', 'version': r['version'], 'ids': r['ids'], 'floats': r.get('floats'), 'what': what})
+                           {'kind': 'cli', 'version': r['version'], 'ids': r['ids'], 'floats': r.get('floats'), 'seed': r.get('seed'), 'extra_args': r.get('extra_args'), 'what': what})
         for c in r['corr']:
             chk.broken.append('correspondence json.encodable (%s): %s' % (r['version'], c))
         if r.get('model') and not r['corr']:
@@ -227,5 +227,5 @@ def replay(chk, drv, rep):
     print(json.dumps(r)[:1500])
     if r.get('kind') == 'cli':
         g, v = r['version'].split('/')
-        print(_one((g, v, 'replay', r['ids'], [])))
+        print(_one((g, v, r.get('seed', 'replay'), r['ids'], r.get('extra_args', []), r.get('floats'))))
     return 0
